@@ -283,7 +283,7 @@ def ec_hash160(b):
 EDITS = ["out_amount", "out_script", "out_append", "out_remove", "in_sequence", "in_outpoint",
          "in_append", "in_remove", "locktime", "version", "annex_set", "annex_clear",
          "leaf_set", "leaf_inplace", "annex_append_inplace", "annex_pop_inplace", "sig_insert_inplace",
-         "p2tr_annex_spend", "p2tr_annex_spend"]
+         "p2tr_annex_spend", "p2tr_annex_spend", "out_script_inplace"]
 
 
 def op_strategy():
@@ -405,6 +405,11 @@ def check_hist(case, ctx):
                 j = i % len(txd["outs"])
                 txd["outs"][j]["script"] = [v & 0xFF | 0x50, v.to_bytes(4, "big")]
                 t.tx_outs[j].script_pubkey = Script([v & 0xFF | 0x50, v.to_bytes(4, "big")])
+            elif kind == "out_script_inplace" and txd["outs"]:
+                # the command list of the existing scriptPubKey object is extended in place
+                j = i % len(txd["outs"])
+                txd["outs"][j]["script"] = list(txd["outs"][j]["script"]) + [v & 0x0F | 0x50]
+                t.tx_outs[j].script_pubkey.commands.append(v & 0x0F | 0x50)
             elif kind == "out_append" and len(txd["outs"]) < 7:
                 o = extra_outs[i % 3]
                 txd["outs"].append(dict(o))
@@ -508,7 +513,142 @@ def check_hist(case, ctx):
     ctx.label("query_edit_query" if requery else "plain")
 
 
+# ------------------------------------------------- the digest that verification uses
+
+VKINDS = ["p2pkh", "p2wpkh", "p2sh_2of2", "p2wsh_2of2", "p2tr_key", "p2tr_leaf_p2pk", "p2tr_leaf_2of2"]
+
+
+@st.composite
+def verif_cases(draw):
+    n_in = draw(st.integers(1, 3))
+    n_out = draw(st.integers(1, 3))
+    kind = draw(st.sampled_from(VKINDS))
+    taproot = kind.startswith("p2tr")
+    hts = HT_TAP if taproot else HT_LEGACY
+    return {
+        "kind": kind, "n_in": n_in, "idx": draw(st.integers(0, n_in - 1)), "n_out": n_out,
+        "secrets": draw(st.lists(gen.uniform_int(1, ec.N - 1), min_size=3, max_size=3, unique=True)),
+        "hts": [draw(st.sampled_from(hts)), draw(st.sampled_from(hts))],
+        "version": draw(st.sampled_from([1, 2])), "locktime": draw(txgen.u32()),
+        "seqs": draw(st.lists(txgen.u32(), min_size=3, max_size=3)),
+        "amounts": draw(st.lists(st.integers(0, 2**45), min_size=3, max_size=3)),
+        "spent": draw(st.lists(st.integers(0, 2**45), min_size=3, max_size=3)),
+        "aux": draw(gen.b32()), "wrong": draw(st.sampled_from([None, None, 0, 1])),
+    }
+
+
+def check_verif(case, ctx):
+    """Signatures are made OUTSIDE the library: reference digest of each signature's own hash type, reference
+    ECDSA / BIP340 signer.  Input verification accepts them exactly when the digest it computes is the
+    specified one (case 'wrong': one signature signs the digest of another hash type than its last byte says,
+    and has to be refused)."""
+    import hashlib
+
+    kind, idx, n_in = case["kind"], case["idx"], case["n_in"]
+    d1, d2, d3 = case["secrets"]
+    P1, P2 = ec.mul(d1), ec.mul(d2)
+    hts = list(case["hts"])
+    for i in (0, 1):  # SINGLE without matching output is its own topic (digest_differential)
+        if hts[i] & 3 == 3 and idx >= case["n_out"]:
+            hts[i] = (hts[i] & 0x80) | 1
+    wrong = case["wrong"]
+    two = kind.endswith("2of2")
+    if wrong == 1 and not two:
+        wrong = 0
+    ctx.label("kind:" + kind)
+    ctx.label("expect_reject" if wrong is not None else "expect_accept")
+    if two and hts[0] != hts[1]:
+        ctx.label("two_signatures_of_different_hash_types")
+    ctx.nontrivial()
+    multisig = [0x52, ec.sec(P1), ec.sec(P2), 0x52, 0xAE]
+    ms_b = txser.script_bytes(multisig)
+    tap2 = [ec.xonly(P1), 0xAC, ec.xonly(P2), 0xBA, 0x52, 0x87]   # <k1> CHECKSIG <k2> CHECKSIGADD 2 EQUAL
+    leaf_code = {"p2tr_leaf_p2pk": [ec.xonly(P1), 0xAC], "p2tr_leaf_2of2": tap2}.get(kind)
+    internal = ec.mul(d3)
+    if kind == "p2pkh":
+        spk = [0x76, 0xA9, ec_hash160(ec.sec(P1)), 0x88, 0xAC]
+    elif kind == "p2wpkh":
+        spk = [0, ec_hash160(ec.sec(P1))]
+    elif kind == "p2sh_2of2":
+        spk = [0xA9, ec_hash160(ms_b), 0x87]
+    elif kind == "p2wsh_2of2":
+        spk = [0, hashlib.sha256(ms_b).digest()]
+    elif kind == "p2tr_key":
+        from vf.ref import taproot as rt
+        _, Q = rt.tweak_pubkey(P1, b"")
+        spk = [0x51, ec.xonly(Q)]
+    else:
+        from vf.ref import taproot as rt
+        leaf_b = txser.script_bytes(leaf_code)
+        tree = (0xC0, leaf_b)
+        root, _ = rt.tree_info(tree)
+        _, Q = rt.tweak_pubkey(internal, root)
+        spk = [0x51, ec.xonly(Q)]
+        cb = rt.control_block(internal, tree, 0)
+    txd = {"version": case["version"], "segwit": False, "locktime": case["locktime"],
+           "ins": [{"prev_tx": bytes([7 + i]) * 32, "prev_index": i, "script": [], "sequence": case["seqs"][i],
+                    "witness": []} for i in range(n_in)],
+           "outs": [{"amount": case["amounts"][j], "script": [0x51, bytes([j])]} for j in range(case["n_out"])]}
+    spent = [{"amount": case["spent"][i], "spk": (spk if i == idx else [0x51])} for i in range(n_in)]
+    ref_spent = [{"amount": s["amount"], "spk": txser.script_bytes(s["spk"])} for s in spent]
+
+    def digest(ht, slot):
+        use = ht
+        if wrong == slot:  # sign the digest of another type, keep the type byte
+            pool = [h for h in (HT_TAP if kind.startswith("p2tr") else HT_LEGACY) if h != ht]
+            use = pool[(case["locktime"] + slot) % len(pool)]
+        if kind in ("p2pkh", "p2sh_2of2"):
+            code = ms_b if two else txser.script_bytes(spk)
+            return sighash.legacy(txd, idx, code, use)
+        if kind in ("p2wpkh", "p2wsh_2of2"):
+            code = ms_b if two else txser.script_bytes([0x76, 0xA9, ec_hash160(ec.sec(P1)), 0x88, 0xAC])
+            return sighash.bip143(txd, idx, code, spent[idx]["amount"], use)
+        lh = None if kind == "p2tr_key" else sighash.tapleaf_hash(txser.script_bytes(leaf_code), 0xC0)
+        return sighash.bip341(txd, idx, ref_spent, use, leaf_hash=lh)
+
+    def ecdsa(d, ht, slot):
+        r, s = ec.ecdsa_sign(d, int.from_bytes(digest(ht, slot), "big"))
+        return ec.der(r, s) + bytes([ht])
+
+    def schnorr(d, ht, slot):
+        sig = ec.schnorr_sign(d, digest(ht, slot), case["aux"])
+        return sig + (bytes([ht]) if ht else b"")
+
+    if kind == "p2pkh":
+        txd["ins"][idx]["script"] = [ecdsa(d1, hts[0], 0), ec.sec(P1)]
+    elif kind == "p2wpkh":
+        txd["ins"][idx]["witness"] = [ecdsa(d1, hts[0], 0), ec.sec(P1)]
+    elif kind == "p2sh_2of2":
+        txd["ins"][idx]["script"] = [0, ecdsa(d1, hts[0], 0), ecdsa(d2, hts[1], 1), ms_b]
+    elif kind == "p2wsh_2of2":
+        txd["ins"][idx]["witness"] = [b"", ecdsa(d1, hts[0], 0), ecdsa(d2, hts[1], 1), ms_b]
+    elif kind == "p2tr_key":
+        from vf.ref import taproot as rt
+        txd["ins"][idx]["witness"] = [schnorr(rt.tweak_seckey(d1, b""), hts[0], 0)]
+    elif kind == "p2tr_leaf_p2pk":
+        txd["ins"][idx]["witness"] = [schnorr(d1, hts[0], 0), txser.script_bytes(leaf_code), cb]
+    else:
+        # stack order: the signature for the LAST key is pushed first
+        txd["ins"][idx]["witness"] = [schnorr(d2, hts[1], 1), schnorr(d1, hts[0], 0),
+                                      txser.script_bytes(leaf_code), cb]
+    txd["segwit"] = any(i["witness"] for i in txd["ins"])
+    t = build_tx(txd, spent)
+    with time_limit(120):
+        st_, ok = attempt(t.verify_input, idx)
+    if wrong is None:
+        require(st_ == "ok" and ok is True, f"verif/{kind}:signature_over_the_specified_digest_refused",
+                f"hash types {[hex(h) for h in hts]} idx={idx} n_in={n_in} n_out={case['n_out']}: {st_}:{ok!r}")
+    else:
+        require(not (st_ == "ok" and ok), f"verif/{kind}:signature_over_another_digest_accepted",
+                f"hash types {[hex(h) for h in hts]} wrong slot {wrong}")
+
+
 SUBS = [
+    Sub("verification_digest", check_verif, strategy=lambda tier: verif_cases(), min_per_shard=4,
+        budget={"quick": 300, "thorough": 12000},
+        required=["kind:" + k for k in VKINDS] + ["two_signatures_of_different_hash_types", "expect_reject",
+                                                  "expect_accept"],
+        nontrivial_rule="every case (one input verified with externally made signatures)"),
     Sub("digest_differential", check_diff, strategy=lambda tier: diff_cases(),
         budget={"quick": 30000, "thorough": 1000000},
         required=[f"{a}|ht={h:#x}" for a in ALGOS
